@@ -28,7 +28,7 @@ print(' '.join(c))")"
     mkdir -p "$OUT/verif" && git -C "$VERIF" archive HEAD -- . ':!seeded' ':!evidence' ':!replays' | tar -x -C "$OUT/verif" && mkdir -p "$OUT/verif/tools/bin" && cp -p "$VERIF/tools/bin/vinstr" "$OUT/verif/tools/bin/" 2>/dev/null
   for p in $props; do
     CGO=0; [ "$p" = C08 ] || [ "$p" = C16 ] || [ "$p" = C03 ] || [ "$p" = C18 ] && CGO=1
-    VERIF_REPO="$WT" CGO_ENABLED=$CGO "$OUT/verif/check" "$p" > "$OUT/check.out" 2>&1
+    VERIF_REPO="$WT" CGO_ENABLED=$CGO "$OUT/verif/check" "$p" --budget 600 > "$OUT/check.out" 2>&1
     r=$?
     if [ $r = 1 ] && grep -q "^VIOLATION" "$OUT/check.out"; then caught="$caught $p"; break; else missed="$missed $p(exit$r)"; fi
   done
